@@ -141,7 +141,13 @@ def addBasisOp (w : World) (h : String) (bs : List Name) (id : Option Name) (att
       | none => let r := addSimplexWithBasisQ o.c bs id; (r.1, r.2, fun _ => o)
       | some f => let r := f.addByBasis bs id; (r.1, r.2.c, fun _ => o.withFS r.2)
     match res with
-    | (.error e, _, _) => (.error e, w)
+    | (.error e, c', mk) =>
+      -- an exception does not roll back what the call had already created (only possible for requests the
+      -- library does not document, e.g. a basis with a repeated point)
+      if c'.simps == o.c.simps && c'.seq == o.c.seq then (.error e, w) else
+      let a := argDict w attr
+      let r := sync a.2 (mk c') c' (fun m => if c'.orderOf? m == some 0 then some a.1 else none) emptyContent
+      (.error e, r.2.setObj h r.1)
     | (.ok n, c', mk) =>
       let a := argDict w attr
       let r := sync a.2 (mk c') c' (fun m => if m = n || c'.orderOf? m == some 0 then some a.1 else none) emptyContent
@@ -173,7 +179,10 @@ def subdivideOp (w : World) (h : String) (s : Name) (order : List Name) : Except
     match subdivide o.c s order with
     | .error e => (.error e, w)
     | .ok (mid, c') =>
-      let r := sync w o c' noSpecial emptyContent
+      -- the simplices of the star are deleted first (their dicts are gone) even if a generated name is re-used
+      let cDel := (deleteSimplex o.c s).getD o.c
+      let o1 := { o with attrs := o.attrs.filter (fun p => cDel.contains p.1) }
+      let r := sync w o1 c' noSpecial emptyContent
       (.ok mid, r.2.setObj h r.1)
 
 def relabelWith (w : World) (h : String) (f : C → R (List (Name × Name))) : Except Err (List (Name × Name)) × World :=
@@ -257,20 +266,16 @@ def deepcopyOp (w : World) (src h : String) : Except Err Unit × World :=
     let y := sync r.2 o s.c noSpecial (fun n => s.dictOf w n)
     (.ok (), y.2.setObj h y.1)
 
-/-- `a.compose(b)` into a new object: union; shared simplices get a new dict = a's updated with b's -/
-def mergeAttrs (w : World) (a b : Obj) (h : String) : World :=
-  match w.obj? h with
-  | none => w
-  | some d =>
-    b.c.names.foldl (fun w n =>
-      if a.c.contains n then
-        let merged := Dict.update (a.dictOf w n) (b.dictOf w n)
-        let al := w.alloc merged
-        match al.2.obj? h with
-        | none => al.2
-        | some d' => al.2.setObj h { d' with attrs := d'.attrs.map (fun p => if p.1 = n then (n, al.1) else p) }
-      else w) (w.setObj h d)
+/-- shared simplices get a new dict = a's updated with b's (`d[s] = attr`) -/
+def mergeAttrs (w : World) (a b : Obj) (h : String) (shared : List Name) : World :=
+  shared.foldl (fun w n =>
+    let merged := Dict.update (a.dictOf w n) (b.dictOf w n)
+    let al := w.alloc merged
+    match al.2.obj? h with
+    | none => al.2
+    | some d' => al.2.setObj h { d' with attrs := d'.attrs.map (fun p => if p.1 = n then (n, al.1) else p) }) w
 
+/-- `a.compose(b)` into a new object: the name-respecting union -/
 def composeOp (w : World) (ha hb h : String) : Except Err Unit × World :=
   match w.obj? ha, w.obj? hb with
   | some a, some b =>
@@ -281,7 +286,7 @@ def composeOp (w : World) (ha hb h : String) : Except Err Unit × World :=
       let o : Obj := { rep := r.1, c := emptyC, attrs := [] }
       let content := fun (n : Name) => if a.c.contains n then a.dictOf w n else b.dictOf w n
       let y := sync r.2 o c' noSpecial content
-      (.ok (), mergeAttrs (y.2.setObj h y.1) a b h)
+      (.ok (), mergeAttrs (y.2.setObj h y.1) a b h (b.c.names.filter a.c.contains))
   | _, _ => (.error .key, w)
 
 /-- `a.compose(b, d)` into an existing target -/
@@ -290,11 +295,8 @@ def composeIntoOp (w : World) (ha hb ht : String) : Except Err Unit × World :=
   | some a, some b, some t =>
     let r := composeInto a.c b.c t.c
     let content := fun (n : Name) => if a.c.contains n then a.dictOf w n else b.dictOf w n
-    let y := sync w t r.2 noSpecial content
-    let w' := y.2.setObj ht y.1
-    match r.1 with
-    | .error e => (.error e, w')
-    | .ok _ => (.ok (), mergeAttrs w' a b ht)
+    let y := sync w t r.2.1 noSpecial content
+    (r.1, mergeAttrs (y.2.setObj ht y.1) a b ht r.2.2)
   | _, _, _ => (.error .key, w)
 
 /-- a derived complex built from a copy of `src` by adding simplices with empty dicts -/
